@@ -123,6 +123,12 @@ func (g *coreGen) call(d int) Node {
 	for i := range args {
 		args[i] = map[string]any(g.intExpr(d - 1))
 	}
+	if n >= 2 && !g.recursive && g.r.Intn(4) == 0 {
+		// a later argument changes a variable passed earlier: the earlier parameter keeps the value it had
+		v := g.intVar()
+		args[0] = map[string]any(cn("var", "n", v))
+		args[1] = map[string]any(cn("inc", "n", v, "op", g.pick("++", "--"), "post", g.r.Intn(2) == 0))
+	}
 	return cn("call", "f", f, "args", args)
 }
 
@@ -496,6 +502,18 @@ func (g *coreGen) matchExpr(d int) Node {
 	return cn("match", "e", map[string]any(subj), "cases", cases)
 }
 
+// hdrCond wraps a loop condition so that, instead of just ending the inner loop, a false condition breaks out of
+// (or continues) the loop AROUND it: a signal raised in a loop's header belongs to the enclosing loop.
+func (g *coreGen) hdrCond(cond Node, outer bool) Node {
+	if !outer || g.r.Intn(4) != 0 {
+		return cond
+	}
+	sig := cn("block", "b", []any{map[string]any(cn(g.pick("break", "continue")))})
+	return cn("match", "e", map[string]any(cond), "cases", []any{
+		map[string]any(cn("case", "pats", []any{map[string]any(cn("plit", "v", map[string]any(cn("bool", "v", true))))}, "bk", "expr", "b", map[string]any(cn("num", "v", 1)))),
+		map[string]any(cn("case", "pats", []any{map[string]any(cn("pid", "n", "_"))}, "bk", "block", "b", map[string]any(sig)))})
+}
+
 func (g *coreGen) block(d, n int) Node {
 	b := make([]any, 0, n)
 	for i := 0; i < n; i++ {
@@ -583,12 +601,13 @@ func (g *coreGen) stmt(d int) Node {
 		// a counted while loop: the counter is advanced first, so continue cannot loop forever
 		g.nloop++
 		v := fmt.Sprintf("w%d", g.nloop)
+		outer := g.inLoop > 0
 		g.inLoop++
 		body := g.block(d-1, 1+g.r.Intn(3))
 		g.inLoop--
 		inc := map[string]any(cn("expr", "e", map[string]any(cn("inc", "n", v, "op", "++", "post", true))))
 		body["b"] = append([]any{inc}, body["b"].([]any)...)
-		loop := cn("while", "c", map[string]any(cn("bin", "op", "<", "l", map[string]any(cn("var", "n", v)), "r", map[string]any(g.num(1+g.r.Intn(4))))), "b", map[string]any(body))
+		loop := cn("while", "c", map[string]any(g.hdrCond(cn("bin", "op", "<", "l", map[string]any(cn("var", "n", v)), "r", map[string]any(g.num(1+g.r.Intn(4)))), outer)), "b", map[string]any(body))
 		init := cn("expr", "e", map[string]any(cn("asg", "n", v, "op", "=", "e", map[string]any(g.num(0)))))
 		return cn("block", "b", []any{map[string]any(init), map[string]any(loop)})
 	case 8, 9:
@@ -597,11 +616,12 @@ func (g *coreGen) stmt(d int) Node {
 		}
 		g.nloop++
 		v := fmt.Sprintf("f%d", g.nloop)
+		outer := g.inLoop > 0
 		g.inLoop++
 		body := g.block(d-1, 1+g.r.Intn(3))
 		g.inLoop--
 		return cn("for", "init", map[string]any(cn("asg", "n", v, "op", "=", "e", map[string]any(g.num(g.r.Intn(2))))),
-			"c", map[string]any(cn("bin", "op", g.pick("<", "<="), "l", map[string]any(cn("var", "n", v)), "r", map[string]any(g.num(1+g.r.Intn(4))))),
+			"c", map[string]any(g.hdrCond(cn("bin", "op", g.pick("<", "<="), "l", map[string]any(cn("var", "n", v)), "r", map[string]any(g.num(1+g.r.Intn(4)))), outer)),
 			"post", map[string]any(cn("inc", "n", v, "op", "++", "post", g.r.Intn(2) == 0)), "b", map[string]any(body))
 	case 10:
 		if g.inLoop > 0 {
@@ -698,6 +718,13 @@ func (g *coreGen) program() Node {
 		pat := map[string]any(cn("none"))
 		if g.r.Intn(3) > 0 {
 			pat = map[string]any(g.anyExpr(2))
+			if g.r.Intn(5) == 0 {
+				// next executed while the pattern is evaluated: no further rule runs for this element
+				nx := cn("block", "b", []any{map[string]any(cn("print", "args", []any{map[string]any(cn("str", "v", "skip")), map[string]any(cn("index"))})), map[string]any(cn("next"))})
+				pat = map[string]any(cn("match", "e", map[string]any(cn("index")), "cases", []any{
+					map[string]any(cn("case", "pats", []any{map[string]any(cn("plit", "v", map[string]any(cn("num", "v", g.r.Intn(3)))))}, "bk", "block", "b", map[string]any(nx))),
+					map[string]any(cn("case", "pats", []any{map[string]any(cn("pid", "n", "_"))}, "bk", "expr", "b", pat))}))
+			}
 		}
 		var body Node
 		if g.r.Intn(5) == 0 {
